@@ -184,3 +184,68 @@ Proof.
     + split; [discriminate|]. intros [_ X]; discriminate X.
     + split; auto.
 Qed.
+
+(* ---- the trial points are convex combinations of two points of the box: the direction the search uses is the
+   dx StepResult has already corrected (x - dx0 is in the box), so for 0 <= alpha <= 1 the clipping of the trial
+   point never moves it.  (Removing that clipping from the code changes nothing; the box invariant of the trial
+   points does not rest on it.) ---- *)
+Lemma convex_in_box x d l u a :
+  lb_le l x = true -> le_ub x u = true -> lb_le l (x - d) = true -> le_ub (x - d) u = true ->
+  0 <= a -> a <= 1 ->
+  lb_le l (x - a * d) = true /\ le_ub (x - a * d) u = true.
+Proof.
+  intros H1 H2 H3 H4 Ha0 Ha1. split.
+  - destruct l as [lo|]; cbn in *; auto. qcases. apply qle_iff.
+    assert (A : 0 <= (1 - a) * (x - lo)) by (apply Qmult_le_0_compat; lra).
+    assert (B : 0 <= a * (x - d - lo)) by (apply Qmult_le_0_compat; lra).
+    lra.
+  - destruct u as [hi|]; cbn in *; auto. qcases. apply qle_iff.
+    assert (A : 0 <= (1 - a) * (hi - x)) by (apply Qmult_le_0_compat; lra).
+    assert (B : 0 <= a * (hi - (x - d))) by (apply Qmult_le_0_compat; lra).
+    lra.
+Qed.
+
+Lemma halves_unit k : 0 < halves k 1 /\ halves k 1 <= 1.
+Proof.
+  assert (G : forall k a, 0 < a -> a <= 1 -> 0 < halves k a /\ halves k a <= 1).
+  { clear k. induction k as [|k IH]; intros a H0 H1; cbn [halves]; [split; assumption|]. apply IH; lra. }
+  apply G; lra.
+Qed.
+
+Theorem trial_point_unclipped (P : problem) x y dx dy k :
+  Forall2 (fun l u => bnd_le l u = true) (var_lb P) (var_ub P) ->
+  length x = length (var_lb P) -> length dx = length x ->
+  in_box (var_lb P) (var_ub P) x = true ->
+  let '(dx0, dy0, _, _) := step_result P x y dx dy in
+  veq (fst (trial_point P x y dx0 dy0 (halves k 1))) (vsub x (vscale (halves k 1) dx0)).
+Proof.
+  intros HF Hlx Hld HB. unfold step_result, trial_point. cbn [fst].
+  destruct (halves_unit k) as [A0 A1]. generalize dependent (halves k 1). intros a A0 A1.
+  unfold in_box in HB. revert x dx Hlx Hld HB.
+  induction HF as [|l u lbs ubs Hlu Hrest IH]; intros [|x0 x] [|d0 dx] Hlx Hld HB; cbn in *; try discriminate; try constructor.
+  - apply Bool.andb_true_iff in HB. destruct HB as [HB0 HB]. apply Bool.andb_true_iff in HB0. destruct HB0 as [L0 U0].
+    pose proof (xn1_in_box x0 d0 l u Hlu) as X. destruct (xn1 x0 d0 l u) as [xn d'] eqn:E. destruct X as (X1 & X2 & X3).
+    cbn [snd].
+    assert (L1 : lb_le l (x0 - d') = true).
+    { destruct l as [lo|]; cbn in *; auto. qcases. apply qle_iff. rewrite <- X3. exact X1. }
+    assert (U1 : le_ub (x0 - d') u = true).
+    { destruct u as [hi|]; cbn in *; auto. qcases. apply qle_iff. rewrite <- X3. exact X2. }
+    destruct (convex_in_box x0 d' l u a L0 U0 L1 U1) as [C1 C2]; try lra.
+    apply clip_b_inside; assumption.
+  - apply Bool.andb_true_iff in HB. destruct HB as [_ HB]. apply IH; auto; lia.
+Qed.
+
+(* ---- an observation, not one of the twenty properties: the acceptance test adds 1e-4 alpha ip where the Armijo
+   rule subtracts it (the step is x - dx, so the slope of the merit along it is -ip).  The search therefore accepts
+   steps that INCREASE the merit: f = x^2/2 on [-1, 3], dt = rho = 1, from x = 1 the direction 1 + 2^-14 is accepted
+   at full length although the merit goes from 1/2 to 1/2 + 2^-13 + 2^-27. ---- *)
+Definition obs_problem : problem := quad_problem (mk_qspec [[1]] [0] 0 [] [] [] [Some (-(1))] [Some 3] [] []).
+Example search_accepts_merit_increase :
+  match snd (globalized_step obs_problem [1] [] 1 1 KStandard None c_1e8 [1] [] [1 + (1 # 16384)]) with
+  | Some (dx, dy, xn, yn) =>
+      qlt (merit obs_problem [1] [] 1 1 KStandard [1] []) (merit obs_problem [1] [] 1 1 KStandard xn yn)
+      && qeqb (merit obs_problem [1] [] 1 1 KStandard [1] []) (1 # 2)
+      && veqb dx [1 + (1 # 16384)]
+  | None => false
+  end = true.
+Proof. vm_compute. reflexivity. Qed.
